@@ -21,12 +21,24 @@ tvars == <<tid, l, T, done>>
 
 NoCall == [op |-> "none"]
 InitT(t) == [D |-> [items |-> t.init.items, maxlen |-> t.init.maxlen],
-             call |-> [c \in 1..t.nc |-> NoCall]]
+             call |-> [c \in 1..t.nc |-> NoCall], saved |-> <<>>]
 V(ok, Tn, why) == [ok |-> ok, T |-> Tn, why |-> why]
 
 Multi(op) == op \in {"extend", "extendleft", "rotate", "reverse", "clear", "remove", "setmaxlen"}
 
+\* transact() blocks (C06 through Deque.transact): what the block did is kept when it ends, undone when it raises
+BlockStep(To, e) ==
+    IF e.ret.k # "none" THEN V(FALSE, To, "C06 " \o e.op \o " of a Deque block failed with " \o e.ret.k)
+    ELSE IF e.op = "txbegin" THEN V(e.items = To.D.items, [To EXCEPT !.saved = <<To.D>> \o @], "entering a block changed the contents")
+    ELSE IF To.saved = <<>> THEN V(TRUE, To, "")
+    ELSE LET \* an exception passes through every enclosing block: everything since the outermost one began is undone
+             Dn == IF e.op = "txraise" THEN To.saved[Len(To.saved)] ELSE To.D IN
+         IF e.items # Dn.items
+         THEN V(FALSE, To, "C06 contents after a Deque block that " \o (IF e.op = "txraise" THEN "raised" ELSE "ended") \o
+                           " are not " \o (IF e.op = "txraise" THEN "those before the block: " ELSE "its operations applied: ") \o ToJson(Dn.items))
+         ELSE V(TRUE, [To EXCEPT !.D = Dn, !.saved = IF e.op = "txraise" THEN <<>> ELSE Tail(@)], "")
 SeqStep(To, e) ==
+    IF e.op \in {"txbegin", "txend", "txraise"} THEN BlockStep(To, e) ELSE
     LET r == DDispatch(To.D, e) IN
     IF r.ret.k # e.ret.k \/ r.ret.v # e.ret.v
     THEN V(FALSE, To, e.op \o " returned " \o ToJson(e.ret) \o "; collections.deque returns " \o ToJson(r.ret))
